@@ -9,6 +9,8 @@ last), `last` (length of the last axis), `rows` (`lead.prod` last-axis vectors i
   `packbits`/`unpackbits` inverse laws, `cdiv`.
 * THEOREM over GENERATED tables (`Props/C15Gen.lean`): render/parse of the eight values, aliases, `mv_str ∘ mvarray`,
   `popcount`, `bit_in`.
+* THEOREM, composition with C01/C02/C06 (`Props/C15Sim.lean`): the byte planes of `mv_to_bp` ARE the `BitVec` lanes of the bit-parallel
+  simulation theorems; pattern strings → `LogicSim` (m = 2, 4, 8; any `P`) → result strings, `cycle(k)` on bytes.
 * CORRESPONDENCE (harness/c15.py): the model functions used here equal the real kyupy functions on random inputs
   (driver commands `enc.*`).  NumPy itself is exercised, not modelled.
 * ORACLE (harness/c15.py): the same statements evaluated on the real functions. -/
